@@ -73,7 +73,7 @@ IDEQ_EQ_ALLOW = {"_find_child": "diff matches peers of two different trees by th
 #: (used to attribute an identity-discipline finding to the operation it corrupts)
 _FAMILIES = [
     (r"(^|\.)(filter|filtered|_add_filtered)($|\.)", ["C08"]),
-    (r"(^|\.)(copy|copy_to|_add_from)($|\.)", ["C07"]),
+    (r"(^|\.)(copy|copy_to|_add_from|add_child)($|\.)", ["C07"]),  # add_child is the primitive every copy goes through
     (r"(^|\.)(find_all|find_first|find|_search|__getitem__|__contains__)($|\.)", ["C09"]),
     (r"(^|\.)(iterator|visit|_iter_\w+|_visit_\w+|__iter__)($|\.)", ["C06"]),
     (r"(^|\.)(format|format_iter|_get_prefix|_render_lines)($|\.)", ["C16"]),
@@ -103,12 +103,13 @@ def _ideq_props(f: Func, op: str, operand: ast.AST, slot: bool) -> List[str]:
     cls = f.top.cls or ""
     typed = cls.startswith("Typed") or cls == "_SystemRootTypedNode"
     is_self = isinstance(operand, ast.Name) and operand.id == f.self_name
+    fam = family_props(f)
     if op == "remove":
-        return ["C02", "C09"] if slot else ["C01", "C03", "C08"]
+        return sorted(set(["C02", "C09"] if slot else ["C01", "C03", "C08"]) | set(fam))
     if op == "index" and is_self:
-        return ["C15"] if typed else ["C10"]
+        return sorted(set(["C15"] if typed else ["C10"]) | set(fam))
     if op == "index":
-        return ["C04"]
+        return sorted(set(["C04"]) | set(fam))
     if op == "in":
         return sorted(set(["C01", "C10"]) | set(family_props(f)))
     return ["C10"]
@@ -145,6 +146,14 @@ def ideq(ctx: Ctx) -> List[Ob]:
                     obs.append(ctx.ob("ID-EQ", sorted(set(["C01", "C10"]) | set(family_props(f))), f, n, n, False,
                                       f"`{norm(n)}` compares two nodes with {'==' if isinstance(n.ops[0], ast.Eq) else '!='}: Node.__eq__ compares the data objects, so a clone "
                                       "or an equal-data node counts as the same node"))
+            # `is` / `is not` between two data ids compares object identity of ints / strings, not their values
+            if isinstance(n, ast.Compare) and len(n.ops) == 1 and isinstance(n.ops[0], (ast.Is, ast.IsNot)):
+                def _is_id(e_):
+                    return isinstance(e_, ast.Attribute) and e_.attr in ("_data_id", "data_id", "_node_id", "node_id")
+                if _is_id(n.left) and _is_id(n.comparators[0]):
+                    obs.append(ctx.ob("ID-EQ", sorted(set(["C02", "C03"]) | set(family_props(f))), f, n, n, False,
+                                      f"`{norm(n)}` compares two ids by object identity: equal ids that were computed independently (large hashes, strings built at "
+                                      "run time) are different objects, so the test fails although the ids are equal"))
         # identity idioms count as discharged instances
         for n in iter_own(f.node):
             if isinstance(n, ast.Compare) and len(n.ops) == 1 and isinstance(n.ops[0], (ast.Is, ast.IsNot)):
